@@ -216,11 +216,14 @@ def build():
                 "path": "wv/",
                 "serves_properties": sorted(CHECKS),
                 "kind_free_text": "runtime monitoring: generated workloads executed on the real code (plain and "
-                "ASan+UBSan builds of the working tree) under reference-model, invariant, trace and metamorphic monitors",
+                "ASan+UBSan builds of the working tree, valgrind memcheck on the plain build in the thorough tier) under "
+                "reference-model, invariant, trace and metamorphic monitors",
             }
         ],
         "checks": checks,
-        "notes": "Exit 0 held / only known findings, 1 violation (VIOLATION line), 2 inconclusive. See DESIGN.md.",
+        "notes": "Exit 0 held / only known findings, 1 violation (VIOLATION line), 2 inconclusive. See DESIGN.md section 8 for what "
+        "was found and repaired (fix: commits in /repo, known_findings.json 'fixed'), the two recorded findings (C04/C15 INFO END added "
+        "by pysam for symbolic ALT; C06 re-alignment window limit next to unrelated indels) and the 159 seeded changes under seeded/.",
         "not_applicable": [{"property_id": c, "reason": PENDING_REASON} for c in ALL if c not in CHECKS],
     }
     return m
